@@ -674,9 +674,81 @@ def _closure_exprs(prov, name, limit=40):
     return out
 
 
+def _blacklist_model(r, fi, name, with_siblings, bl, loop, prov, where):
+    """Set algebra of the black-list on a model: instructor_vars = [one sampled, one not sampled], samples hold an ordinary
+    variable, the sampled instructor variable and (FormulaGrader) both sibling names, which are always sampled."""
+    construct = name + ': black-list [content]'
+    sample = {'x': 1.0, 'iv_in': 2.0}
+    env = {"self.config['instructor_vars']": ['iv_in', 'iv_out'], 'var_samples': [sample, dict(sample)]}
+    want = {'iv_in'}
+    if with_siblings:
+        sample.update({'sibling_1': 3.0, 'sibling_2': 4.0})
+        env['var_samples'] = [sample, dict(sample)]
+        env['sibling_formulas'] = {'sibling_1': 'a+1', 'sibling_2': 'b'}
+        want |= {'sibling_1', 'sibling_2'}
+    # names the black-list is computed from
+    needed, todo = set(), [bl]
+    while todo:
+        n = todo.pop()
+        if n in needed:
+            continue
+        needed.add(n)
+        for v in prov.defs.get(n, []):
+            for x in ast.walk(v):
+                if isinstance(x, ast.Name) and isinstance(x.ctx, ast.Load):
+                    todo.append(x.id)
+    needed -= set(fi.params)
+
+    def touches(st):
+        for n in ast.walk(st):
+            if isinstance(n, ast.Name) and isinstance(n.ctx, (ast.Store, ast.Del)) and n.id in needed:
+                return True
+            if isinstance(n, ast.Call) and isinstance(n.func, ast.Attribute) and n.func.attr in fl.FLOW_METHODS | {'remove', 'pop', 'clear'} \
+                    and fl.name_of(n.func.value) in needed:
+                return True
+        return False
+    pre = []
+    for st in fi.node.body:
+        if st is loop:
+            break
+        if touches(st):
+            pre.append(st)
+    try:
+        mev.run(pre, env)
+        got = env.get(bl)
+        if not isinstance(got, (list, set, tuple)):
+            raise mev.Unsupported('black-list is not a list on the model')
+        got = list(got)
+    except mev.Unsupported as e:
+        r.undecided(construct, 'construction of `%s` is outside the supported model evaluation (%s)' % (bl, e), where)
+        return
+    missing = sorted(want - set(got))
+    extra = sorted(set(got) - want)
+    if missing:
+        sib = [m for m in missing if m.startswith('sibling')]
+        iv = [m for m in missing if not m.startswith('sibling')]
+        parts = []
+        if sib:
+            parts.append('sibling name(s) %s are not black-listed although siblings are always part of the samples: the student can refer '
+                         "to another input box (e.g. add 0*sibling_1) and is not rejected" % sib)
+        if iv:
+            parts.append('the sampled instructor variable %s is not black-listed: it stays usable by the student' % iv)
+        r.violation(construct, "on the model (instructor_vars ['iv_in', 'iv_out'], samples %s%s) `%s` evaluates to %s; %s"
+                    % (sorted(sample), ', sibling_formulas sibling_1/sibling_2' if with_siblings else '', bl, got, '; '.join(parts)), where,
+                    expected='black-list >= (instructor_vars & samples) | keys(sibling_formulas) = %s' % sorted(want), found=str(got))
+    elif extra:
+        why = 'an ordinary variable is deleted from the student\'s scope: correct answers using it are refused' if 'x' in extra else \
+              'a name that is not in the samples is black-listed: `del` raises KeyError for every submission'
+        r.violation(construct, 'on the model `%s` evaluates to %s, expected %s: %s' % (bl, got, sorted(want), why), where,
+                    expected=str(sorted(want)), found=str(got))
+    else:
+        r.ok(construct, 'on the model the black-list is exactly (instructor_vars & samples)%s = %s'
+             % (' | sibling names' if with_siblings else '', sorted(want)), where)
+
+
 def d4_scrub(ctx, idx):
     r = ctx.rule('D4.SCRUB', 'instructor (and sibling) names are deleted from the variable scope after the author\'s and before the '
-                 'student\'s evaluation, on every path, in all three gen_evaluations', floor=16)
+                 'student\'s evaluation, on every path, in all three gen_evaluations', floor=19)
     with r:
         for q in (FGC, IGC, SGC):
             fi = idx.func(q + '.gen_evaluations')
@@ -762,6 +834,7 @@ def d4_scrub(ctx, idx):
                 r.check(has_sib, name + ': black-list [siblings]', 'contains the sibling variable names',
                         'the sibling variable names no longer flow into the black-list `%s`: a student can refer to sibling_N, i.e. to '
                         'another input box, in this answer' % bl.id, lib.loc(fi, dloop))
+            _blacklist_model(r, fi, name, q == FGC, bl.id, loop, prov, lib.loc(fi, dloop))
             # the black-list is complete before the sampling loop starts
             fills = [n for n in walk_own(fi.node) if isinstance(n, (ast.Call, ast.AugAssign, ast.Assign)) and (
                 (isinstance(n, ast.Call) and isinstance(n.func, ast.Attribute) and n.func.attr in ('append', 'extend')
@@ -977,6 +1050,8 @@ _FG_DEL = "            for key in var_blacklist:\n                del varlist[ke
 _SUM_DEL = "            for key in var_blacklist:\n                del varlist[key]\n                \n            # Evaluate sums.\n"
 _INT_DEL = "            for key in var_blacklist:\n                del varlist[key]\n\n            student_re, student_im, used_funcs = self.evaluate_int("
 
+_FG_BL = "        sibling_vars = [key for key in sibling_formulas]\n        var_blacklist = []\n        for var in self.config['instructor_vars']:\n            if var in var_samples[0]:\n                var_blacklist.append(var)\n        var_blacklist += sibling_vars\n"
+
 MUTANTS = [
     # D1
     Mutant('validate-only-when-true', MH, "        if result['ok'] is True or result['ok'] == 'partial':", "        if result['ok'] is True:", 'D1'),
@@ -1043,6 +1118,12 @@ MUTANTS = [
     Mutant('formula-deletion-before-author', FG, "            # Compute expressions\n            comparer_params_eval = self.eval_and_validate_comparer_params(scoped_eval, comparer_params)\n            comparer_params_evals.append(comparer_params_eval)\n\n            # Before performing student evaluation, scrub the sibling and instructor\n            # variables so that students can't use them\n            for key in var_blacklist:\n                del varlist[key]\n",
            "            for key in var_blacklist:\n                del varlist[key]\n            comparer_params_eval = self.eval_and_validate_comparer_params(scoped_eval, comparer_params)\n            comparer_params_evals.append(comparer_params_eval)\n", 'D4'),
     Mutant('sum-deletes-first-only', IG, "            for key in var_blacklist:\n                del varlist[key]\n                \n", "            for key in var_blacklist[:1]:\n                del varlist[key]\n                \n", 'D4'),
+    Mutant('seeded-siblings-filtered-out', FG, _FG_BL,
+           "        var_blacklist = [var for var in self.config['instructor_vars']\n                         if var in var_samples[0]]\n"
+           "        var_blacklist += [key for key in sibling_formulas\n                          if key not in var_samples[0]]\n", 'D4'),
+    Mutant('instructor-vars-selection-inverted', IG, "            if var in var_samples[0]:\n                var_blacklist.append(var)\n\n        for i in range(self.config['samples']):\n            # Update the functions and variables listings with this sample\n            funclist.update(func_samples[i])\n            varlist.update(var_samples[i])\n\n            # Evaluate sums.",
+           "            if var not in var_samples[0]:\n                var_blacklist.append(var)\n\n        for i in range(self.config['samples']):\n            # Update the functions and variables listings with this sample\n            funclist.update(func_samples[i])\n            varlist.update(var_samples[i])\n\n            # Evaluate sums.", 'D4'),
+    Mutant('only-first-sibling-blacklisted', FG, "        var_blacklist += sibling_vars\n", "        var_blacklist += sibling_vars[:1]\n", 'D4'),
     # D5
     Mutant('check-scope-skipped', EXPR, "        self.check_scope(variables, functions, suffixes)\n\n        # metadata_dict", "        # metadata_dict", 'D5'),
     Mutant('check-scope-conditional', EXPR, "        self.check_scope(variables, functions, suffixes)\n\n        # metadata_dict",
@@ -1078,6 +1159,9 @@ BENIGN = [
            "            for key in var_blacklist:\n                del varlist[key]\n            self.log('scrubbed')\n\n            student_eval, meta"),
     Benign('blacklist-comprehension', IG, "        var_blacklist = []\n        for var in self.config['instructor_vars']:\n            if var in var_samples[0]:\n                var_blacklist.append(var)\n\n        for i in range(self.config['samples']):\n            # Update the functions and variables listings with this sample\n            funclist.update(func_samples[i])\n            varlist.update(var_samples[i])\n\n            # Evaluate sums.",
            "        var_blacklist = [var for var in self.config['instructor_vars'] if var in var_samples[0]]\n\n        for i in range(self.config['samples']):\n            # Update the functions and variables listings with this sample\n            funclist.update(func_samples[i])\n            varlist.update(var_samples[i])\n\n            # Evaluate sums."),
+    Benign('blacklist-two-comprehensions', FG, _FG_BL,
+           "        var_blacklist = [var for var in self.config['instructor_vars']\n                         if var in var_samples[0]]\n"
+           "        var_blacklist += [key for key in sibling_formulas\n                          if key not in var_blacklist]\n"),
     Benign('check-scope-keywords', EXPR, "        self.check_scope(variables, functions, suffixes)\n\n        # metadata_dict",
            "        self.check_scope(functions=functions, variables=variables, suffixes=suffixes)\n\n        # metadata_dict"),
 ]
